@@ -418,10 +418,48 @@ func (w *World) GlobalNeverWritten(g *ssa.Global) bool {
 					}
 					continue
 				}
+				// an element or field address derived from the global that is only read through
+				if addrOnlyRead(in) {
+					continue
+				}
 				ok = false
 			}
 		})
 	}
 	w.nwCache[g] = ok
 	return ok
+}
+
+// addrOnlyRead: in computes an element/field address (&g[i], &g.f) that is used only to load from (directly or
+// through further element/field addresses).
+func addrOnlyRead(in ssa.Instruction) bool {
+	var v ssa.Value
+	switch x := in.(type) {
+	case *ssa.IndexAddr:
+		v = x
+	case *ssa.FieldAddr:
+		v = x
+	default:
+		return false
+	}
+	refs := v.Referrers()
+	if refs == nil {
+		return true
+	}
+	for _, r := range *refs {
+		switch y := r.(type) {
+		case *ssa.UnOp:
+			if y.Op != token.MUL {
+				return false
+			}
+		case *ssa.IndexAddr, *ssa.FieldAddr:
+			if !addrOnlyRead(y.(ssa.Instruction)) {
+				return false
+			}
+		case *ssa.DebugRef:
+		default:
+			return false
+		}
+	}
+	return true
 }
